@@ -171,15 +171,22 @@ Fixpoint iloop (cnt : nat) (grid : list Qc) (around : Qc) (i len_g max_deriv : N
       iloop cnt' grid around (uadd i 1) len_g max_deriv st'
   end.
 
-(* generate_fdiff_weights_vector(grid, max_deriv, around) *)
-Definition fdiff (grid : list Qc) (max_deriv : N) (around : Qc) : res (list val) :=
+(* the state (c1, c4, weights) of generate_fdiff_weights_vector after the initialisation and
+   the first [stages] rounds of its outer loop *)
+Definition fdiff_stages (stages : nat) (grid : list Qc) (max_deriv : N) (around : Qc)
+  : res (Qc * Qc * list val) :=
   let len_g := u32 (N.of_nat (length grid)) in
   let len_w := umul len_g (uadd max_deriv 1) in
   do g0 <- get grid 0;
   let c4 := Qcminus g0 around in
   (* vec_basic weights(len_w); weights[0] = one; weights[1..] = zero *)
   do w <- set (repeat (VQ qc0) (N.to_nat len_w)) 0 (VQ qc1);
-  do '(_, _, w') <- iloop (N.to_nat len_g - 1) grid around 1 len_g max_deriv (qc1, c4, w);
+  iloop stages grid around 1 len_g max_deriv (qc1, c4, w).
+
+(* generate_fdiff_weights_vector(grid, max_deriv, around): all len_g - 1 rounds *)
+Definition fdiff (grid : list Qc) (max_deriv : N) (around : Qc) : res (list val) :=
+  let len_g := u32 (N.of_nat (length grid)) in
+  do '(_, _, w') <- fdiff_stages (N.to_nat len_g - 1) grid max_deriv around;
   Ok w'.
 
 (* ---------- guards (the defect classes; see FdiffSpec/FdiffProofs) ---------- *)
@@ -187,10 +194,12 @@ Definition fdiff (grid : list Qc) (max_deriv : N) (around : Qc) : res (list val)
 Definition guard_size (n : nat) (max_deriv : N) : bool :=
   (0 <? N.of_nat n) && (max_deriv <? W32) && (N.of_nat n * (max_deriv + 1) <? W32).
 
+Definition qc_eqb (x y : Qc) : bool :=
+  Z.eqb (Qnum (this x)) (Qnum (this y)) && Pos.eqb (Qden (this x)) (Qden (this y)).
 Fixpoint qc_mem (x : Qc) (l : list Qc) : bool :=
   match l with
   | [] => false
-  | y :: r => if Qc_eq_dec x y then true else qc_mem x r
+  | y :: r => if qc_eqb x y then true else qc_mem x r
   end.
 Fixpoint qc_distinct (l : list Qc) : bool :=
   match l with
